@@ -294,6 +294,16 @@ def small_scope(res, ctx, rng):
                 res.count('small_scope_histories')
 
 
+def jitter(rng, history):
+    """The same history with timestamps that run slightly backwards (neighbouring records swap their stamps): pairing
+    follows the order of the stream, never the stamps.  Stamps stay unique."""
+    stamps = [e.timestamp for e in history]
+    for i in range(len(stamps) - 1):
+        if rng.random() < 0.3:
+            stamps[i], stamps[i + 1] = stamps[i + 1], stamps[i]
+    return [ev.mk(ts, e.eventid, e.func_qualifier, e.data, e.tid) for ts, e in zip(stamps, history)]
+
+
 def random_histories(res, ctx, rng):
     inv = H.inventory()
     for h in range(ctx.pick(400, 6000)):
@@ -322,6 +332,9 @@ def random_histories(res, ctx, rng):
             history.append(mk_event(rng, 1000 + 7 * i, code, q, tid))
             if q == 1:
                 opened.append((tid, code))
+        if h % 3 == 2:
+            history = jitter(rng, history)
+            res.count('random_histories_with_stamps_running_backwards')
         check_history(res, history, 'random')
         res.count('random_histories')
 
